@@ -59,6 +59,8 @@ fn stats_json(s: &Stats) -> J {
         .set("fairness_switches", J::u(s.fairness_switches))
         .set("spin_yields", J::u(s.spin_yields))
         .set("rare_site_suspensions", J::u(s.rare_site_suspensions))
+        .set("atomic_yields", J::u(s.atomic_yields))
+        .set("preempt_atomic", J::u(s.preempt_atomic))
 }
 
 fn fnv_u32s(d: &[u32]) -> u64 {
